@@ -34,6 +34,17 @@ func newTokenizer(kind int, cfg sx.SX) tokenizers.ITokenizer {
 		t.SetFieldSeparators([]rune{0x1})
 		t.SetQuoteSymbols(quotes)
 		t.SetFieldSeparators(seps)
+		// a rejected configuration call leaves no trace: an invalid separator list is refused (panic), then the quotes
+		// are set once more, which rebuilds the states from the configuration the tokenizer holds
+		func() {
+			defer func() { recover() }()
+			t.SetFieldSeparators([]rune{'\n'})
+		}()
+		func() {
+			defer func() { recover() }()
+			t.SetQuoteSymbols([]rune{'\r'})
+		}()
+		t.SetQuoteSymbols(quotes)
 		return t
 	default:
 		return mtok.NewMustacheTokenizer()
@@ -208,11 +219,15 @@ func runTok(which string) func(in sx.SX) (sx.SX, string) {
 			}
 		}
 		// a tokenizer object with a past: an earlier input, an abandoned HasNextToken look-ahead - then the same call
-		if fail == "" && kind != 2 {
-			w := warmTok[kind]
+		if fail == "" {
+			wkey := fmt.Sprint(kind)
+			if kind == 2 {
+				wkey += sx.Text(l[3])
+			}
+			w := warmTok[wkey]
 			if w == nil {
 				w = newTokenizer(kind, l[3])
-				warmTok[kind] = w
+				warmTok[wkey] = w
 			}
 			setOptions(w, bits)
 			again := w.TokenizeBuffer(text)
@@ -221,7 +236,7 @@ func runTok(which string) func(in sx.SX) (sx.SX, string) {
 				same = again[i].Type() == got[i].Type() && again[i].Value() == got[i].Value() && again[i].Line() == got[i].Line() && again[i].Column() == got[i].Column()
 			}
 			if !same {
-				fail = fmt.Sprintf("a tokenizer object used before (last input %s, then an abandoned HasNextToken) returns %s for this input, a new one %s", sx.Quote(warmLast[kind]), sx.Text(tokensSX(again)), sx.Text(obs))
+				fail = fmt.Sprintf("a tokenizer object used before (last input %s, then an abandoned HasNextToken) returns %s for this input, a new one %s", sx.Quote(warmLast[wkey]), sx.Text(tokensSX(again)), sx.Text(obs))
 			}
 			// leave a look-ahead behind for the next case; also the C12 clause: a scanner that is Reset and tokenized again gives the same positions
 			sc := sio.NewStringScanner(text)
@@ -231,16 +246,24 @@ func runTok(which string) func(in sx.SX) (sx.SX, string) {
 			if fail == "" && sx.Text(tokensSX(first)) != sx.Text(tokensSX(second)) {
 				fail = fmt.Sprintf("TokenizeStream of a scanner, Reset(), TokenizeStream again: first %s, then %s", sx.Text(tokensSX(first)), sx.Text(tokensSX(second)))
 			}
+			// the same scanner object again after a look-ahead: SetReader(s), HasNextToken(), s.Reset(), TokenizeStream(s)
+			w.SetReader(sc)
+			w.HasNextToken()
+			sc.Reset()
+			third := w.TokenizeStream(sc)
+			if fail == "" && sx.Text(tokensSX(first)) != sx.Text(tokensSX(third)) {
+				fail = fmt.Sprintf("SetReader(s), HasNextToken(), s.Reset(), TokenizeStream(s): %s, a plain TokenizeStream gives %s", sx.Text(tokensSX(third)), sx.Text(tokensSX(first)))
+			}
 			w.SetReader(sio.NewStringScanner(text))
 			w.HasNextToken()
-			warmLast[kind] = text
+			warmLast[wkey] = text
 		}
 		return obs, fail
 	}
 }
 
-var warmTok = map[int]tokenizers.ITokenizer{}
-var warmLast = map[int]string{}
+var warmTok = map[string]tokenizers.ITokenizer{}
+var warmLast = map[string]string{}
 
 var tokAlphabet = []rune{'ÿ', 'À', 'Ā', 'a', 'Z', '1', '0', '.', '-', '/', '*', '"', '\'', '<', '>', '=', '!', '{', '}', '#', ',', ' ', '\r', '\n', 'é', '日', '😀', 0xFFFF, '_', '(', '\t', 'e', '+', ';'}
 
